@@ -167,6 +167,12 @@ pub fn float_complete(d: &FmtDesc, p: &Punct, s: &[u8]) -> Gram {
         return Gram::Reject;
     }
     let body = &s[i..];
+    if body.is_empty() && !d.required_mantissa_digits && !d.required_integer_digits {
+        // lone sign without required digits: not documented. Empty string: the builder docs say
+        // "empty strings are still invalid" but lexical's own format tests (issue_96_tests.rs)
+        // assert Ok((0.0, 0)) -- the two sources contradict each other, so it is not judged.
+        return Gram::Unspecified;
+    }
     // a number takes precedence over a special string
     let num = number_body(d, p, body, neg);
     match num {
@@ -296,8 +302,12 @@ fn number_body(d: &FmtDesc, p: &Punct, s: &[u8], neg: bool) -> Gram {
         return Gram::Unspecified;
     }
     if mant_digits == 0 && !has_point && !has_exp {
-        // empty body (after sign): documented invalid when mantissa digits are required (handled
-        // above); without the requirement the builder docs list the empty string as invalid
+        // empty body: documented invalid when mantissa digits are required (handled above);
+        // without the requirement the builder docs say "empty strings are still invalid", but
+        // say nothing about a lone sign
+        if had_prefix || had_suffix {
+            return Gram::Unspecified;
+        }
         return Gram::Reject;
     }
     if d.mantissa_radix != d.exponent_base && !frac_digits.is_empty() && mant_digits == 0 {
